@@ -1401,5 +1401,8 @@ func c14Cases(seed int64, tier string) []*c14Case {
 		}
 		cases = append(cases, c14EntitiesSchemaDecodeCase(fmt.Sprintf("dentities-schema-%d", i), schemaText, "["+strings.Join(ents, ",")+"]"))
 	}
+
+	// 4. messages that name a sub-expression (unspecified principal / resource); batch.Authorize (c14_batch.go)
+	cases = append(cases, c14BatchCases(seed, pick)...)
 	return cases
 }
